@@ -7,7 +7,11 @@ Correspondence (model ≈ code), all on a virtual clock (harness/c06_util.py):
      declines, one that accepts observations; the way a request takes there is compared with the
      model's `obsEntry`) behind the real `pipe.error_to_message`; requests are built as a peer would build them, encoded and
      parsed with `Message.decode(data, remote)`; remotes are real `UDP6EndpointAddress`
-     objects (real `blockwise_key`).  Lean: `BwServer.step` folded over the script.
+     objects (real `blockwise_key`).  A scripted handler may SUSPEND when it is invoked and end at a
+     later step (`hold` / `fin`), so any number of requests are in flight at once; a script may give its
+     requests to a real `Site` at which the resource objects are registered under several paths.
+     Lean: `BwServer.carrive` / `cfinish` folded over the script (an arrival that is completed on the
+     spot is `BwServer.step`: theorem C06_atomic_is_step).
   T  the real `TimeoutDict` vs Lean `TD` on timed get/set/del/mutate sequences.
   D  the same scripts against bare `Block1Spool` / `Block2Cache` objects (exception classes
      ContinueException / IncompleteException / BadRequest rendered by their own to_message).
@@ -15,7 +19,8 @@ Correspondence (model ≈ code), all on a virtual clock (harness/c06_util.py):
 Oracle (independent reading of the property / RFC 7959, shares no code with aiocoap or the
 model): bodies the handler saw vs what was sent, each completed body once; 2.31 echo; 4.08 / 4.00
 cases (final blocks included); no 5.xx of the machinery's own; Block2 responses are exact slices of
-the rendering made for the latest block-0 request (none if its handler raised) with the right more
+the rendering made for the latest block-0 request -- the one that ARRIVED last, whatever the order in
+which handlers end; none while it is still rendered or if its handler raised -- with the right more
 flag; state lifetime between MAX_TRANSMIT_WAIT (93 s, RFC 7252) and twice that.
 """
 import c06_util as U
@@ -44,17 +49,32 @@ RULE = ("R: scripts of 4-40 requests by 1-4 logical clients on 1-3 endpoints (di
         "time x timer phase, and every exception class raised on a block-0 request (Block2 0, no Block2, "
         "final Block1 block, resource without assembly) while an older rendering is kept, followed by "
         "later blocks; the block-0, Block2 and stale-rendering tables also on the observable resources. "
+        "Round 4: ~30 % of the scripts let handlers suspend (a request for the beginning is held and ends "
+        "after 0-6 further requests, or never), ~30 % go through a Site at which resource objects are "
+        "registered under 2-3 paths (alias, nested site), 1 in 16 is a busy-server scenario (1-2 transfers "
+        "abandoned after two accesses; every T/3..T-1 one to three other transfers on the resource complete or "
+        "are superseded; continuation T-2..3T after the last use); tables: two/three requests for the beginning "
+        "under one key in flight x outcome kinds x every order of completion with a later block asked after "
+        "every event, a second key in flight, observable resources, long handlers; busy server x {spool, cache} "
+        "x abandoned 1-2 x traffic 1-3 x spacing x 2T+2 / 3T; every pair of paths of a resource object; empty "
+        "BERT blocks with the more flag. "
         "A script is non-trivial when a handler saw a multi-block body or a later Block2 block was "
         "served, and at least one request was refused. T: timed op sequences on 1-4 keys with "
-        "T in {1,2,7,10} ticks. K: pairs of requests differing in one component of the block key.")
+        "T in {1,2,7,10} ticks, one in ten a ghost-key sequence (keys set and read once, then every 1..T-1 ticks "
+        "1-4 other keys set and deleted again, the first keys read T-1..4T after their last access). K: pairs of requests differing in one component of the block key.")
 TRUSTED = ["harness/c06_util.py: socket-less virtual-clock asyncio loop (timers run at exactly their deadline)",
-           "the model is given the request as parsed by aiocoap's own Message.decode (options, payload)"]
-ASSUMPTIONS = ["one request is rendered atomically (the handler does not yield to another request of the same resource)",
+           "the model is given the request as parsed by aiocoap's own Message.decode (options, payload); for a script "
+           "that goes through a Site: the options of the message the resource is handed by the Site, and as "
+           "original path the Uri-Path of the wire request"]
+ASSUMPTIONS = ["needs_blockwise_assembly and add_observation do not suspend (requests reach the spool in their order of "
+               "arrival); a handler suspends at most once, before it produces its outcome; cancelled renderings are "
+               "not generated",
                "the handler returns a response message (no request code) or raises; an exception is answered as "
                "pipe.error_to_message renders it (its code is compared, the rendering itself is C09's subject)",
                "diagnostic payload text of error responses is not compared",
                "BERT (size exponent 7) is only exercised with maximum_payload_size >= 1024; the length of a final "
-               "BERT block is not constrained",
+               "BERT block is not constrained; size exponent 7 is served to UDP peers as well (position of the "
+               "earlier rounds: the property names no transport-specific limit)",
                "observable resources: only the way a request takes (observation branch or not) and the first "
                "response are judged; the Observe option an accepted observation puts on that response and the "
                "notifications are C08's subject"]
@@ -118,10 +138,20 @@ def hexopts(opts):
 
 # ----------------------------------------------------------------------------- running a script
 
+def opath_str(opts):
+    """the Uri-Path the request is sent with, as the `opath` field of a model line"""
+    comps = [v for n, v in opts if n == 11]
+    return "p" + ".".join(U.hexs(c) for c in comps)
+
+
 def run_script(aiocoap, script, direct=False):
     """Run one R script on the implementation.  Returns (model line, impl output, observations).
-    direct=True: against bare Block1Spool/Block2Cache objects instead of a Resource."""
+    direct=True: against bare Block1Spool/Block2Cache objects instead of a Resource.
+    A step is a request (optionally `hold`: its handler suspends when it is invoked) or
+    `{"fin": j, "dt": ..}`: the handler invoked for step j goes on and ends.  `script["site"]`: the
+    requests are given to a `Site` at which the resources are registered (U.SITE_PATHS)."""
     w = U.World(aiocoap)
+    site = bool(script.get("site")) and not direct
     try:
         if direct:
             w.make_direct(4)
@@ -138,10 +168,43 @@ def run_script(aiocoap, script, direct=False):
         T = U.ticks_of(ts.pop())
         keyids = {}
         toks, outs, obs = [], [], []
+        held = {}
+        res_of = {}
+
+        def answer(h, hopts, resp, exc, is_open):
+            rp = bytes(resp.payload)
+            ropts = U.opts_of(resp)
+            observing = False
+            if h.entry == "o" and is_open and not any(n == 6 for n, _ in hexopts(hopts)):
+                # the first response of an accepted observation: the Observe option put on it is
+                # the observation's business (C08), everything else is judged as usual
+                observing = (6, b"") in ropts
+                ropts = [x for x in ropts if x != (6, b"")]
+            tok = (f"{int(resp.code)}|{U.blk_str(resp.opt.block1)}|{U.blk_str(resp.opt.block2)}|"
+                   f"{U.opts_str(ropts)}|{'-' if exc else U.hexs(rp)}")
+            o = {"code": int(resp.code),
+                 "b1": None if resp.opt.block1 is None else tuple(int(x) for x in resp.opt.block1),
+                 "b2": None if resp.opt.block2 is None else tuple(int(x) for x in resp.opt.block2),
+                 "opts": ropts, "payload": rp, "exc": exc, "open": is_open, "observing": observing}
+            return tok, o
 
         async def whole():
             for i, st in enumerate(script["steps"]):
                 await w.loop.aadvance(st["dt"])
+                if "fin" in st:
+                    j = st["fin"]
+                    toks.append(f"F,{res_of.get(j, 0)},{st['dt']},{j}")
+                    ent = held.pop(j, None)
+                    if ent is None:
+                        outs.append("n")
+                        obs.append({"fin": j, "none": True})
+                        continue
+                    h, hopts = ent
+                    resp, exc, is_open = await w.finish(h, release=True)
+                    tok, o = answer(h, hopts, resp, exc, is_open)
+                    outs.append(tok + "|-|-")
+                    obs.append(dict(o, fin=j, seen=[], entry=h.entry, obs_payload=None))
+                    continue
                 ep = script["eps"][st["ep"]]
                 epd = (tuple(ep[0]), None if ep[1] is None else bytes.fromhex(ep[1]), ep[2], ep[3])
                 payload = mk_bytes(st["payload"])
@@ -154,43 +217,49 @@ def run_script(aiocoap, script, direct=False):
                 hpayload = mk_bytes(hspec)
                 ppay = bytes(msg.payload)
                 pspec = spec_str(st["payload"]) if ppay == payload else U.hexs(ppay)
-                observable = (not direct) and w.observable[st["res"]]
+                hold = bool(st.get("hold"))
+                sr = (hcode, hexopts(hopts), hpayload, hexc)
+                if direct:
+                    h, pending = await w.arrive_direct(st["res"], bool(st["asm"]), msg, sr, hold)
+                    res, seen_by = st["res"], msg
+                else:
+                    h, pending = await w.arrive(st["res"], bool(st["asm"]), msg, sr, hold, site=site)
+                    if h.res_index is None:
+                        raise HarnessError(f"step {i}: the request did not reach a resource")
+                    res, seen_by = h.res_index, h.entered
+                    if not site and res != st["res"]:
+                        raise HarnessError("request entered another resource")
+                res_of[i] = res
+                observable = (not direct) and w.observable[res]
                 toks.append(",".join([
-                    str(st["res"]), str(st["dt"]), str(st["asm"]), str(rid),
+                    str(res), str(st["dt"]), str(st["asm"]), str(rid),
                     str(msg.remote.maximum_payload_size), str(msg.remote.maximum_block_size_exp),
                     str(int(msg.code)), U.blk_raw(msg, 27), U.blk_raw(msg, 23),
-                    U.opts_str(U.opts_of(msg)), pspec,
+                    U.opts_str(U.opts_of(seen_by)), pspec,
                     ("!" if hexc else "") + str(hcode), U.opts_str(hexopts(hopts)), spec_str(hspec),
-                    "1" if observable else "0"]))
-                call = w.request_direct if direct else w.request
-                resp, exc, seen = await call(st["res"], bool(st["asm"]), msg,
-                                             (hcode, hexopts(hopts), hpayload, hexc))
-                rp = bytes(resp.payload)
-                ropts = U.opts_of(resp)
-                observing = False
-                if w.last_entry == "o" and w.last_open and not any(n == 6 for n, _ in hexopts(hopts)):
-                    # the first response of an accepted observation: the Observe option put on it is
-                    # the observation's business (C08), everything else is judged as usual
-                    observing = (6, b"") in ropts
-                    ropts = [x for x in ropts if x != (6, b"")]
+                    "1" if observable else "0",
+                    opath_str(hexopts(st["opts"])) if site else "-",
+                    "1" if hold else "0"]))
+                seen = h.seen
                 if len(seen) == 0:
                     s = "-"
                 else:
                     c, b1, b2, so, sp = seen[0]
                     s = ("H" if len(seen) == 1 else f"H{len(seen)}") + \
                         f"~{c}~{U.blk_str(b1)}~{U.blk_str(b2)}~{U.opts_str(so)}~{U.hexs(sp)}"
-                outs.append(f"{int(resp.code)}|{U.blk_str(resp.opt.block1)}|{U.blk_str(resp.opt.block2)}|"
-                            f"{U.opts_str(ropts)}|{'-' if exc else U.hexs(rp)}|{s}|{w.last_entry}")
-                obs.append({
-                    "code": int(resp.code),
-                    "b1": None if resp.opt.block1 is None else tuple(int(x) for x in resp.opt.block1),
-                    "b2": None if resp.opt.block2 is None else tuple(int(x) for x in resp.opt.block2),
-                    "opts": ropts, "payload": rp, "exc": exc,
-                    "seen": [(c, sp, so) for (c, _b1, _b2, so, sp) in seen],
-                    "entry": w.last_entry, "open": w.last_open, "observing": observing,
-                    # what an observable resource was handed for its observation (and would be handed again
-                    # for every later notification): the payload of that request
-                    "obs_payload": bytes(w.obs_calls[-1][3]) if w.last_entry == "o" else None})
+                common = {"seen": [(c, sp, so) for (c, _b1, _b2, so, sp) in seen], "entry": h.entry,
+                          # what an observable resource was handed for its observation (and would be
+                          # handed again for every later notification): the payload of that request
+                          "obs_payload": bytes(h.obs_call[3]) if h.entry == "o" and h.obs_call else None}
+                if pending:
+                    held[i] = (h, hopts)
+                    outs.append(f"~|-|-|_|-|{s}|{h.entry}")
+                    obs.append(dict(common, pending=True))
+                    continue
+                resp, exc, is_open = await w.finish(h)
+                tok, o = answer(h, hopts, resp, exc, is_open)
+                outs.append(f"{tok}|{s}|{h.entry}")
+                obs.append(dict(o, **common))
 
         w.loop.run_until_complete(whole())
         return f"C06 R {T} " + " ".join(toks), " ".join(outs), obs
@@ -259,19 +328,26 @@ def check_block2(gb2, R, o, mps, mps_fit=None):
 
 class Reference:
     """Independent RFC 7959 server reference that judges one observation at a time and follows
-    the implementation where the property leaves a choice (lifetime between T and 2T)."""
+    the implementation where the property leaves a choice (lifetime between T and 2T).
 
-    def __init__(self, eps):
+    Requests may overlap: `step` judges a request when it arrives (everything up to the handler),
+    `finish` when its handler has ended (the response); for a request whose handler does not suspend
+    the two happen at once.  "The latest block-0 request" is the one that ARRIVED last."""
+
+    def __init__(self, eps, site=False):
         self.eps = eps
-        self.asm = {}     # (res, key) -> dict(blocks, length, last, certain)
-        self.rend = {}    # (res, key) -> dict(R, last, kept)
+        self.site = site
+        self.asm = {}     # key -> dict(blocks, length, last, certain)
+        self.rend = {}    # key -> dict(R, last, kept)
+        self.building = {}   # key -> step index of the latest block-0 request while it has no rendering yet
+        self.pending = {}    # step index -> what is needed to judge the response when it comes
 
     @staticmethod
     def alive(now, last):
         idle = now - last
         return "yes" if idle < T_RFC else ("no" if idle >= 2 * T_RFC else "maybe")
 
-    def step(self, now, st, o):
+    def step(self, now, idx, st, o):
         ep = self.eps[st["ep"]]
         ident = (tuple(ep[0]), ep[1])
         mps = ep[2]
@@ -279,24 +355,28 @@ class Reference:
         # one body then arrive with different values): "fits" is judged against the smallest of them
         mps_fit = min(e[2] for e in self.eps if (tuple(e[0]), e[1]) == ident)
         opts = hexopts(st["opts"])
-        key = (st["res"], ident, st["code"], cache_key_opts(opts))
+        # one endpoint, one method, one set of cache-key options -- Uri-Path is one of them.  Resources
+        # that are addressed directly (no Site) are told apart by their index.
+        key = ("site" if self.site else st["res"], ident, st["code"], cache_key_opts(opts))
         payload = mk_bytes(st["payload"])
         hcode, hopts, hspec = st["h"][:3]
         hexc = h_exc(st["h"])
         R = (hcode, hexopts(hopts), mk_bytes(hspec))
         seen = o["seen"]
-        if o["code"] >= 160 and o["exc"] and not (seen and hexc):
+        pending = bool(o.get("pending"))
+        if not pending and o["code"] >= 160 and o["exc"] and not (seen and hexc):
             # an error the machinery produced (a 5.xx message the handler returned is judged below
             # as its rendering; an exception the handler raised as its outcome)
             return f"5.xx response {o['code']} ({o['exc']})"
         if len(seen) > 1:
             return f"handler invoked {len(seen)} times for one request"
+        if pending and not seen:
+            raise HarnessError("request pending without a handler invocation")
         if not st["asm"]:
             if len(seen) != 1 or seen[0][1] != payload:
                 return "resource without block-wise assembly did not get the request as it came"
-            if hexc and not (o["exc"] and o["code"] == EXC_CODES[hexc]):
-                return f"handler raised {hexc}, answered {o['code']}"
-            return ""
+            self.pending[idx] = {"kind": "plain", "hexc": hexc}
+            return "" if pending else self.finish(now, idx, o)
         b1 = st["b1"]
         if b1 is None:
             body = payload
@@ -307,8 +387,9 @@ class Reference:
             al = self.alive(now, a["last"]) if a else "no"
             if a and not a["certain"] and al == "yes":
                 al = "maybe"
-            if more:       # RFC 7959 2.2: with M set the payload is exactly 2**(SZX+4) bytes (BERT: a multiple of 1024)
-                size_bad = not (len(payload) == size or (szx == 7 and len(payload) % 1024 == 0))
+            if more:       # RFC 7959 2.2: with M set the payload is exactly 2**(SZX+4) bytes (BERT, RFC 8323 6:
+                           # one or more whole 1024 byte blocks -- not none)
+                size_bad = not (len(payload) == size or (szx == 7 and len(payload) % 1024 == 0 and len(payload) > 0))
             else:          # the last block may be shorter, not longer (BERT: no bound)
                 size_bad = szx != 7 and len(payload) > size
             exp = set()
@@ -328,7 +409,9 @@ class Reference:
                         exp.add(408)
                     else:
                         exp.add("accept")
-            if o["code"] == 136 and o["exc"]:
+            if pending:
+                got = "accept"
+            elif o["code"] == 136 and o["exc"]:
                 got = 408
             elif o["code"] == 128 and o["exc"] and not seen:
                 got = 400
@@ -339,7 +422,8 @@ class Reference:
                 got = "accept"
             if got not in exp:
                 return (f"Block1 {tuple(b1)} with {len(payload)} bytes: expected one of {sorted(map(str, exp))}, "
-                        f"got {o['code']} (assembly: {al}, {a['length'] if a else None} bytes)")
+                        f"got {'a handler invocation' if pending else o['code']} "
+                        f"(assembly: {al}, {a['length'] if a else None} bytes)")
             if got in (408, 400):
                 if seen:
                     return f"handler invoked although the block was refused with {o['code']}"
@@ -367,12 +451,12 @@ class Reference:
                 a["last"] = now
                 a["certain"] = True
             if more:
+                if seen:
+                    return "handler invoked on an intermediate block"
                 if o["code"] != 95:
                     return f"intermediate block answered {o['code']}, not 2.31"
                 if o["b1"] != (num, 1 if more else 0, szx):
                     return f"2.31 carries Block1 {o['b1']}, not the request's {tuple(b1)}"
-                if seen:
-                    return "handler invoked on an intermediate block"
                 if o["payload"] and not o["exc"]:
                     return "2.31 with payload"
                 return ""
@@ -385,15 +469,7 @@ class Reference:
         # (RFC 7959 2.3: the Block2 option of the request that gets the response; aiocoap's own client
         # repeats a block size wish on every Block1 block).
         gb2 = st["b2"]
-        v = self.stage2(now, key, gb2, R, o, seen, body, st, (mps, mps_fit), hexc, commit=False)
-        if v == "":
-            self.stage2(now, key, gb2, R, o, seen, body, st, (mps, mps_fit), hexc, commit=True)
-        return v
-
-    def stage2(self, now, key, gb2, R, o, seen, body, st, mpss, hexc, commit):
-        mps, mps_fit = mpss
-        fresh = gb2 is None or gb2[0] == 0
-        if fresh:
+        if gb2 is None or gb2[0] == 0:
             if len(seen) != 1:
                 return "complete request did not reach the handler"
             if seen[0][1] != body:
@@ -401,25 +477,59 @@ class Reference:
                         f"concatenation ({len(body)} bytes) of the blocks received under this key")
             if seen[0][0] != st["code"]:
                 return "handler saw another request code"
-            if hexc:
-                # the latest block-0 request has no rendering: nothing may be served for later blocks
-                if not (o["exc"] and o["code"] == EXC_CODES[hexc]):
-                    return f"handler raised {hexc}, answered {o['code']}"
-                if o["b2"] is not None:
-                    return f"error response to a raising handler carries Block2 {o['b2']}"
-                if commit:
-                    self.rend.pop(key, None)
-                return ""
-            v = check_block2(gb2, R, o, mps, mps_fit)
-            if v:
-                return v
-            if st["b1"] is not None and o["b1"] != (st["b1"][0], 1 if st["b1"][1] else 0, st["b1"][2]):
-                return f"final response carries Block1 {o['b1']}, not the request's {tuple(st['b1'])}"
-            if commit:
-                self.rend[key] = {"R": R, "last": now, "kept": o["b2"] is not None}
-            return ""
+            # from its arrival on this is the latest block-0 request of the endpoint: later blocks are
+            # served from its rendering and from no other -- which does not exist before the handler ends
+            self.building[key] = idx
+            self.pending[idx] = {"kind": "fresh", "key": key, "gb2": gb2, "R": R, "hexc": hexc,
+                                 "b1": st["b1"], "mps": mps, "mps_fit": mps_fit}
+            return "" if pending else self.finish(now, idx, o)
         if seen:
             return "handler invoked for a later Block2 block"
+        if key in self.building:
+            if not (o["code"] == 136 and o["exc"]):
+                return (f"later Block2 block {tuple(gb2)} answered {o['code']} while the latest block-0 request of "
+                        f"this endpoint has no rendering yet (its handler is still running)")
+            return ""
+        return self.later(now, key, gb2, o, mps)
+
+    def finish(self, now, idx, o):
+        """the handler invoked for step `idx` has ended; `o` is the response"""
+        ctx = self.pending.pop(idx, None)
+        if ctx is None:
+            return ""
+        hexc = ctx["hexc"]
+        if o["code"] >= 160 and o["exc"] and not hexc:
+            return f"5.xx response {o['code']} ({o['exc']})"
+        if ctx["kind"] == "plain":
+            if hexc and not (o["exc"] and o["code"] == EXC_CODES[hexc]):
+                return f"handler raised {hexc}, answered {o['code']}"
+            return ""
+        key = ctx["key"]
+        latest = self.building.get(key) == idx
+        if hexc:
+            # this block-0 request has no rendering
+            if not (o["exc"] and o["code"] == EXC_CODES[hexc]):
+                return f"handler raised {hexc}, answered {o['code']}"
+            if o["b2"] is not None:
+                return f"error response to a raising handler carries Block2 {o['b2']}"
+            if latest:
+                del self.building[key]
+                self.rend.pop(key, None)      # nothing may be served for later blocks
+            return ""
+        # whatever happened in the meantime, a block-0 request is answered from its own rendering
+        v = check_block2(ctx["gb2"], ctx["R"], o, ctx["mps"], ctx["mps_fit"])
+        if v:
+            return v
+        b1 = ctx["b1"]
+        if b1 is not None and o["b1"] != (b1[0], 1 if b1[1] else 0, b1[2]):
+            return f"final response carries Block1 {o['b1']}, not the request's {tuple(b1)}"
+        if latest:
+            del self.building[key]
+            self.rend[key] = {"R": ctx["R"], "last": now, "kept": o["b2"] is not None}
+        # else: a newer block-0 request has arrived since; its rendering is the one later blocks come from
+        return ""
+
+    def later(self, now, key, gb2, o, mps):
         r = self.rend.get(key)
         al = "no"
         if r:
@@ -429,7 +539,7 @@ class Reference:
         if o["code"] == 136 and o["exc"]:
             if al == "yes":
                 return "later block of a rendering used less than MAX_TRANSMIT_WAIT ago answered 4.08"
-            if commit and r:
+            if r:
                 del self.rend[key]
             return ""
         if al == "no":
@@ -440,25 +550,28 @@ class Reference:
         if start >= len(body_r):
             if not (o["code"] == 128 and o["exc"]):
                 return f"block {tuple(gb2)} beyond the end of the rendering answered {o['code']}, not 4.00"
-            if commit:
-                r["last"] = now
-                r["kept"] = True
+            r["last"] = now
+            r["kept"] = True
             return ""
         v = check_block2(gb2, r["R"], o, mps)
         if v:
             return v
-        if commit:
-            r["last"] = now
-            r["kept"] = True
+        r["last"] = now
+        r["kept"] = True
         return ""
 
 
 def oracle_script(script, obs):
-    ref = Reference(script["eps"])
+    ref = Reference(script["eps"], site=bool(script.get("site")) and script.get("kind") != "D")
     now = 0
     for i, (st, o) in enumerate(zip(script["steps"], obs)):
         now += st["dt"]
-        v = ref.step(now, st, o)
+        if "fin" in st:
+            v = "" if o.get("none") else ref.finish(now, st["fin"], o)
+            if v:
+                return f"step {i}: {v}", i
+            continue
+        v = ref.step(now, i, st, o)
         if not v and o.get("obs_payload") is not None and o["seen"]:
             # an observation was set up on this request: every later notification is rendered from the request
             # the resource was handed for it, so that must be the request the handler saw -- the whole body
@@ -552,6 +665,22 @@ def step_of(c, dt, b1, b2, payload, h, opts=None, asm=1):
 def gen_script(rng, T, big=False):
     eps = gen_eps(rng)
     clients = [Client(rng, eps, big) for _ in range(rng.choice([1, 2, 2, 3, 4]))]
+    site = rng.random() < 0.3
+    if site:
+        # the requests go through a Site: the path says which resource; some resources have several paths
+        for c in clients:
+            c.res, path = rng.choice(U.SITE_PATHS)
+            c.opts = path_opts(path, [o for o in c.opts if o[0] != 11])
+            c.p_observe = rng.choice([0.5, 0.9, 1.0]) if c.res >= 2 else 0.1
+        if len(clients) > 1 and rng.random() < 0.5:
+            # the same endpoint, method and options at another path of the same resource object
+            c0, c1 = clients[0], clients[1]
+            others = [p for r, p in U.SITE_PATHS if r == c0.res]
+            c1.ep, c1.res, c1.code, c1.mps = c0.ep, c0.res, c0.code, c0.mps
+            c1.opts = path_opts(rng.choice(others), [o for o in c0.opts if o[0] != 11])
+            c1.szx = c0.szx if rng.random() < 0.7 else c1.szx
+            if c1.mps < 1024 and c1.dszx == 7:
+                c1.dszx = 6
     if len(clients) > 1 and rng.random() < 0.3:
         # two logical clients colliding on one block key
         clients[1].ep, clients[1].res, clients[1].code, clients[1].opts = (
@@ -648,7 +777,9 @@ def gen_script(rng, T, big=False):
             num += rng.choice([0, 0, 1])
             pl = pat(rng.choice([0, 1, size, size]), 7)
             more = rng.random() < 0.3 and pl[1] == size
-        if kind == "u_wrong_size":
+        if kind == "u_wrong_size" and szx == 7 and rng.random() < 0.5:
+            pl, more = "-", True                                    # an empty BERT block with the more flag
+        elif kind == "u_wrong_size":
             w = rng.randrange(4)
             if w == 0:
                 pl = slice_spec(spec, off, off + size + 1) if off + size + 1 <= L else pat(size + 1, 9)
@@ -701,7 +832,12 @@ def gen_script(rng, T, big=False):
             c.up[1] = believed
             if not more:
                 c.up = None if rng.random() < 0.7 else c.up
-    return {"kind": "R", "eps": eps, "steps": steps}, kinds
+    if rng.random() < 0.3:
+        steps, kinds = add_overlap(rng, T, steps, kinds)
+    script = {"kind": "R", "eps": eps, "steps": steps}
+    if site:
+        script["site"] = 1
+    return script, kinds
 
 
 def U_size(szx):
@@ -911,6 +1047,280 @@ def boundary_scripts(T):
     return out
 
 
+# ----------------------------------------------------------------------------- round-4 families
+
+def _st(code, dt, b1, b2, pl, h, e=0, opts=None, res=0, hold=0, asm=1):
+    d = {"res": res, "dt": dt, "asm": asm, "ep": e, "code": code, "opts": opts or [[11, "61"]],
+         "b1": b1, "b2": b2, "payload": pl, "h": h}
+    if hold:
+        d["hold"] = 1
+    return d
+
+
+def _fin(j, dt=1):
+    return {"fin": j, "dt": dt}
+
+
+def path_opts(path, extra=()):
+    return sorted([[11, c.encode().hex() or "-"] for c in path] + [list(x) for x in extra], key=lambda o: o[0])
+
+
+H_KINDS = {"cut": lambda sd: [69, [[12, "2a"]], pat(40, sd, 3)], "fits": lambda sd: [69, [], pat(10, sd)],
+           "raises": lambda sd: h_raise("NotFound"), "raises5": lambda sd: h_raise("RuntimeError")}
+
+
+def overlap_scripts(T):
+    """Handlers that suspend: two and three requests for the beginning under one block key in flight at
+    once, every kind of outcome x every order of completion, a later block asked for after every event;
+    the request for the beginning as GET with Block2 0, without Block2 (cut because of the maximum
+    payload size) and as the final block of an upload; a second block key in flight at the same time;
+    observable resources; resources without block-wise assembly; completion after long times."""
+    out = []
+    eps = [[list(ADDRS[0]), None, 1124, 6], [list(ADDRS[1]), None, 1124, 6]]
+    esmall = [[list(ADDRS[0]), None, 32, 0], [list(ADDRS[1]), None, 32, 0]]
+    nul = [69, [], "-"]
+
+    def later(n=1, e=0, code=GET, opts=None, res=0, dt=1):
+        return _st(code, dt, None, [n, 0, 0], "-", nul, e=e, opts=opts, res=res)
+
+    def fresh(form, h, hold, sd, res=0, opts=None, e=0):
+        """-> list of steps, the last of which is the request for the beginning"""
+        if form == "b2":
+            return [_st(GET, 1, None, [0, 0, 0], "-", h, hold=hold, res=res, opts=opts, e=e)]
+        if form == "none":
+            return [_st(GET, 1, None, None, "-", h, hold=hold, res=res, opts=opts, e=e)]
+        return [_st(GET, 1, [0, 1, 0], None, pat(16, sd), h, res=res, opts=opts, e=e),
+                _st(GET, 1, [1, 0, 0], [0, 0, 0], pat(3, sd + 1), h, hold=hold, res=res, opts=opts, e=e)]
+    forms = [("b2", "b2", eps), ("none", "b2", esmall), ("upload", "upload", eps), ("b2", "upload", eps)]
+    for fa, fb, ee in forms:
+        kinds = list(H_KINDS) if (fa, fb) == ("b2", "b2") else ["cut", "fits", "raises"]
+        for ka in kinds:
+            for kb in kinds:
+                ha, hb = H_KINDS[ka](1), H_KINDS[kb](101)
+                for b_held in (1, 0):
+                    for order in ((0, 1), (1, 0)) if b_held else ((0,),):
+                        steps = [_st(GET, 0, None, [0, 0, 0], "-", [69, [], pat(40, 200, 7)]), later()]   # an older rendering is kept
+                        steps += fresh(fa, ha, 1, 1)
+                        ia = len(steps) - 1
+                        steps.append(later())
+                        steps += fresh(fb, hb, b_held, 50)
+                        ib = len(steps) - 1
+                        steps.append(later())
+                        for which in order:
+                            steps.append(_fin((ia, ib)[which] if b_held else ia))
+                            steps.append(later())
+                        steps += [later(2), later(3)]
+                        out.append({"kind": "R", "eps": ee, "steps": steps})
+    # three in flight, all orders of completion; the middle one raising
+    import itertools
+    for mid in ("cut", "raises"):
+        for order in itertools.permutations((0, 1, 2)):
+            hs = [H_KINDS["cut"](1), H_KINDS[mid](60), H_KINDS["cut"](120)]
+            steps = [_st(GET, 0 if i == 0 else 1, None, [0, 0, 0], "-", hs[i], hold=1) for i in range(3)]
+            steps.append(later())
+            for j in order:
+                steps += [_fin(j), later(), later(2)]
+            out.append({"kind": "R", "eps": eps, "steps": steps})
+    # another block key in flight at the same time (other endpoint / other query / other resource)
+    for other in ({"e": 1}, {"opts": [[11, "61"], [15, "78"]]}, {"res": 1}, {"code": FETCH}):
+        for order in ((0, 1), (1, 0)):
+            e2, o2, r2, c2 = other.get("e", 0), other.get("opts"), other.get("res", 0), other.get("code", GET)
+            a = _st(GET, 0, None, [0, 0, 0], "-", H_KINDS["cut"](1), hold=1)
+            b = _st(c2, 1, None, [0, 0, 0], "-", H_KINDS["cut"](90), hold=1, e=e2, opts=o2, res=r2)
+            la, lb = later(), later(e=e2, opts=o2, res=r2, code=c2)
+            steps = [a, b, la, lb]
+            for j in order:
+                steps += [_fin(j), la, lb]
+            out.append({"kind": "R", "eps": eps, "steps": steps})
+    # observable resources (declining / accepting), Observe: 0
+    oobs = [[6, "-"], [11, "61"]]
+    for res in (2, 3):
+        for order in ((0, 1), (1, 0)):
+            steps = [_st(GET, 0, None, [0, 0, 0], "-", H_KINDS["cut"](1), hold=1, res=res, opts=oobs),
+                     _st(GET, 1, None, [0, 0, 0], "-", H_KINDS["cut"](77), hold=1, res=res, opts=oobs),
+                     later(res=res, opts=oobs)]
+            for j in order:
+                steps += [_fin(j), later(res=res, opts=oobs), later(res=res)]
+            out.append({"kind": "R", "eps": eps, "steps": steps})
+    # a resource that does its own block handling: nothing is kept, whatever the order
+    for order in ((0, 1), (1, 0)):
+        steps = [_st(GET, 0, None, [0, 0, 0], "-", H_KINDS["cut"](1), hold=1, asm=0),
+                 _st(GET, 1, None, [0, 0, 0], "-", H_KINDS["raises"](1), hold=1, asm=0)]
+        steps += [_fin(j) for j in order]
+        out.append({"kind": "R", "eps": eps, "steps": steps})
+    # a handler that takes long: what is kept counts from the completion; a newer request still being
+    # rendered hides the kept rendering for as long as it takes
+    for d in (T - 1, T + 1, 2 * T + 1):
+        for d2 in (1, T - 1, T + 1, 2 * T + 1):
+            steps = [_st(GET, 0, None, [0, 0, 0], "-", [69, [], pat(40, 200, 7)]), later(),
+                     _st(GET, 1, None, [0, 0, 0], "-", H_KINDS["cut"](1), hold=1),
+                     later(dt=d - 1), _fin(2, 1), later(dt=d2), later(2)]
+            out.append({"kind": "R", "eps": eps, "steps": steps})
+    # `fin` of what is not pending: a later block with the hold flag, a step finished twice, a refused block
+    steps = [_st(GET, 0, None, [1, 0, 0], "-", nul, hold=1), _fin(0),
+             _st(GET, 1, None, [0, 0, 0], "-", H_KINDS["cut"](1), hold=1), _fin(2), _fin(2),
+             _st(PUT, 1, [3, 0, 0], None, pat(3, 1), nul, hold=1), _fin(5), later()]
+    out.append({"kind": "R", "eps": eps, "steps": steps})
+    return out
+
+
+def busy_steps(T, side, n_ab, n_traffic, gap, tkind, late, site_paths=None):
+    """A busy server: `n_ab` endpoints start a transfer (two accesses each) and give up; in every
+    following stretch of `gap` ticks `n_traffic` other transfers on the same resource complete (or are
+    superseded); `late` ticks after their last use the abandoned transfers are continued."""
+    steps = []
+    ab_eps = list(range(n_ab))
+    tr_ep = n_ab
+    nul = [69, [], "-"]
+
+    def o(i):
+        return [[11, "61"], [15, "743d%02x" % (0x30 + i)]]
+    for e in ab_eps:
+        if side == "spool":
+            steps += [_st(PUT, 0, [0, 1, 0], None, pat(16, e), nul, e=e), _st(PUT, 1, [1, 1, 0], None, pat(16, e + 1), nul, e=e)]
+        else:
+            steps += [_st(GET, 0, None, [0, 0, 0], "-", [69, [], pat(60, e, 3)], e=e), _st(GET, 1, None, [1, 0, 0], "-", nul, e=e)]
+    elapsed = 0
+    while elapsed + gap < late:
+        for i in range(n_traffic):
+            dt = gap if i == 0 else 0
+            if side == "spool":
+                if tkind == 0:      # a two-block upload: block 0 stores, the final block takes it out
+                    steps += [_st(PUT, dt, [0, 1, 0], None, pat(16, 9), nul, e=tr_ep, opts=o(i)),
+                              _st(PUT, 0, [1, 0, 0], None, pat(3, 9), [68, [], "-"], e=tr_ep, opts=o(i))]
+                else:               # a single final block 0
+                    steps += [_st(PUT, dt, [0, 0, 0], None, pat(5, 9), [68, [], "-"], e=tr_ep, opts=o(i))]
+            else:
+                if tkind == 0:      # a large rendering, superseded by a small one
+                    steps += [_st(GET, dt, None, [0, 0, 0], "-", [69, [], pat(40, 9)], e=tr_ep, opts=o(i)),
+                              _st(GET, 0, None, [0, 0, 0], "-", [69, [], pat(4, 9)], e=tr_ep, opts=o(i))]
+                else:               # ... or by a request on which the handler raises
+                    steps += [_st(GET, dt, None, [0, 0, 0], "-", [69, [], pat(40, 9)], e=tr_ep, opts=o(i)),
+                              _st(GET, 0, None, [0, 0, 0], "-", h_raise("ServiceUnavailable"), e=tr_ep, opts=o(i))]
+        elapsed += gap
+    first = True
+    for e in ab_eps:
+        dt = (late - elapsed - 1) if first else 0      # (the second access of the abandoner was 1 tick after the first)
+        first = False
+        if side == "spool":
+            steps.append(_st(PUT, max(dt, 0), [2, 0, 0], None, pat(3, 7), [68, [], "-"], e=e))
+        else:
+            steps.append(_st(GET, max(dt, 0), None, [2, 0, 0], "-", nul, e=e))
+    return steps
+
+
+def busy_scripts(T):
+    out = []
+    eps = [[list(ADDRS[0]), None, 1124, 6], [list(ADDRS[1]), None, 1124, 6], [list(ADDRS[2]), None, 1124, 6]]
+    for side in ("spool", "cache"):
+        for n_ab in (1, 2):
+            for n_tr in (1, 2, 3):
+                for gap in (T // 2, T - 1):
+                    for tkind in (0, 1):
+                        for late in (2 * T + 2, 3 * T):
+                            out.append({"kind": "R", "eps": eps,
+                                        "steps": busy_steps(T, side, n_ab, n_tr, gap, tkind, late + n_ab)})
+    return out
+
+
+def site_scripts(T):
+    """Requests given to a `Site`: one resource object registered under several paths (also through a
+    nested site) keeps the transfers at its paths apart."""
+    out = []
+    eps = [[list(ADDRS[0]), None, 1124, 6], [list(ADDRS[1]), None, 1124, 6]]
+    nul = [69, [], "-"]
+    by_res = {}
+    for ri, path in U.SITE_PATHS:
+        by_res.setdefault(ri, []).append(path)
+    for ri, paths in sorted(by_res.items()):
+        code_up, code_dn = (PUT, GET) if ri < 2 else (FETCH, FETCH)
+        obs = [[6, "-"]] if ri >= 2 else []
+        for p1 in paths:
+            for p2 in paths:
+                o1, o2 = path_opts(p1, obs), path_opts(p2, obs)
+                out.append({"kind": "R", "site": 1, "eps": eps, "steps": [
+                    _st(code_up, 0, [0, 1, 0], None, pat(16, 1), [68, [], pat(3, 1)], opts=o1, res=ri),
+                    _st(code_up, 1, [1, 0, 0], None, pat(3, 2), [68, [], pat(3, 1)], opts=o2, res=ri),
+                    _st(code_up, 1, [1, 0, 0], None, pat(4, 3), [68, [], pat(3, 1)], opts=o1, res=ri),
+                    _st(code_up, 1, [2, 0, 0], None, pat(4, 3), [68, [], pat(3, 1)], opts=o2, res=ri)]})
+                out.append({"kind": "R", "site": 1, "eps": eps, "steps": [
+                    _st(code_dn, 0, None, [0, 0, 0], "-", [69, [], pat(40, 5, 3)], opts=o1, res=ri),
+                    _st(code_dn, 1, None, [1, 0, 0], "-", nul, opts=o2, res=ri),
+                    _st(code_dn, 1, None, [0, 0, 0], "-", [69, [], pat(36, 90)], opts=o2, res=ri),
+                    _st(code_dn, 1, None, [1, 0, 0], "-", nul, opts=o1, res=ri),
+                    _st(code_dn, 1, None, [2, 0, 0], "-", nul, opts=o2, res=ri)]})
+                # both paths being rendered at once
+                out.append({"kind": "R", "site": 1, "eps": eps, "steps": [
+                    _st(code_dn, 0, None, [0, 0, 0], "-", [69, [], pat(40, 5, 3)], opts=o1, res=ri, hold=1),
+                    _st(code_dn, 1, None, [0, 0, 0], "-", [69, [], pat(36, 90)], opts=o2, res=ri, hold=1),
+                    _st(code_dn, 1, None, [1, 0, 0], "-", nul, opts=o1, res=ri),
+                    _fin(0), _st(code_dn, 1, None, [1, 0, 0], "-", nul, opts=o1, res=ri),
+                    _st(code_dn, 1, None, [1, 0, 0], "-", nul, opts=o2, res=ri),
+                    _fin(1), _st(code_dn, 1, None, [1, 0, 0], "-", nul, opts=o1, res=ri),
+                    _st(code_dn, 1, None, [1, 0, 0], "-", nul, opts=o2, res=ri)]})
+    return out
+
+
+def bert_empty_scripts():
+    """size exponent 7: a block with the more flag is one or more whole 1024 byte blocks -- an empty one
+    contradicts its size like any other length that is not a multiple (block 0 and later blocks; from a
+    peer that negotiated BERT and from a UDP peer)"""
+    out = []
+    nul = [68, [], "-"]
+    for mps, mszx in ((1124, 6), (3000, 7)):
+        ep = [[list(ADDRS[0]), None, mps, mszx]]
+        out.append({"kind": "R", "eps": ep, "steps": [
+            _st(PUT, 0, [0, 1, 7], None, "-", nul), _st(PUT, 1, [0, 1, 7], None, "-", nul),
+            _st(PUT, 1, [0, 1, 7], None, pat(1024, 1), nul),
+            _st(PUT, 1, [1, 1, 7], None, "-", nul), _st(PUT, 1, [1, 1, 7], None, "-", nul),
+            _st(PUT, 1, [1, 1, 7], None, pat(1024, 2), nul), _st(PUT, 1, [1, 1, 7], None, "-", nul),
+            _st(PUT, 1, [2, 1, 7], None, "-", nul), _st(PUT, 1, [2, 0, 7], None, "-", nul),
+            _st(PUT, 1, [2, 0, 7], None, "-", nul)]})
+        out.append({"kind": "R", "eps": ep, "steps": [
+            _st(PUT, 0, [0, 1, 7], None, pat(2048, 1), nul), _st(PUT, 1, [2, 1, 7], None, "-", nul),
+            _st(PUT, 1, [2, 0, 7], None, pat(10, 3), nul), _st(PUT, 1, [0, 0, 7], None, "-", nul)]})
+    return out
+
+
+def add_overlap(rng, T, steps, kinds):
+    """Let some handlers of a generated script suspend: such a step gets `hold`, and a `fin` step
+    follows after 0..6 further requests (or never)."""
+    new, nk, waiting = [], [], []
+    for st, k in zip(steps, kinds):
+        fresh = (st["b2"] is None or st["b2"][0] == 0) and (st["b1"] is None or not st["b1"][1])
+        st = dict(st)
+        if rng.random() < (0.5 if fresh else 0.03):
+            st["hold"] = 1
+            waiting.append([rng.choice([0, 0, 1, 1, 2, 3, 6]), len(new)])
+        new.append(st)
+        nk.append(k)
+        due = [w for w in waiting if w[0] <= 0]
+        for w in waiting:
+            w[0] -= 1
+        rng.shuffle(due)
+        for w in due:
+            waiting.remove(w)
+            new.append(_fin(w[1], idle(rng, T)))
+            nk.append("fin")
+            if rng.random() < 0.03:
+                new.append(_fin(rng.randrange(len(new)), 0))      # of something that is not pending
+                nk.append("fin")
+    for w in waiting:
+        if rng.random() < 0.8:
+            new.append(_fin(w[1], idle(rng, T)))
+            nk.append("fin")
+    return new, nk
+
+
+def gen_busy_script(rng, T):
+    eps = [[list(ADDRS[0]), None, 1124, 6], [list(ADDRS[1]), None, 1124, 6], [list(ADDRS[2]), None, 1124, 6]]
+    n_ab = rng.choice([1, 1, 2])
+    steps = busy_steps(T, rng.choice(["spool", "cache"]), n_ab, rng.choice([1, 1, 2, 3]),
+                       rng.choice([T // 3, T // 2, T - 1, T - 2]), rng.randrange(2),
+                       rng.choice([T - 2, T + T // 2, 2 * T + 2, 2 * T + 5, 3 * T]) + n_ab)
+    return {"kind": "R", "eps": eps, "steps": steps}, ["busy"] * len(steps)
+
+
 # ----------------------------------------------------------------------------- T: TimeoutDict
 
 def run_td(aiocoap, T, ops):
@@ -1039,6 +1449,46 @@ def td_boundary():
     return out
 
 
+def td_busy_ops(T, n_ab, n_ghost, gap, variant, late):
+    """`n_ab` keys are set and read once and then left alone; every `gap` ticks `n_ghost` other keys
+    are set and deleted again (variant 1: set, read, deleted; 2: the same key every time); `late` ticks
+    after their last access the abandoned keys are read."""
+    ops = []
+    for k in range(n_ab):
+        ops += [["s", 0, k, 10 + k], ["g", 1 if k == 0 else 0, k]]
+    elapsed, serial = 0, 0
+    while elapsed + gap < late:
+        for i in range(n_ghost):
+            key = 100 + (i if variant == 2 else serial)
+            serial += 1
+            ops.append(["s", gap if i == 0 else 0, key, 7])
+            if variant == 1:
+                ops.append(["g", 0, key])
+            ops.append(["d", 0, key])
+        elapsed += gap
+    for k in range(n_ab):
+        ops.append(["g", max(late - elapsed, 0) if k == 0 else 0, k])
+    return ops
+
+
+def td_busy():
+    out = []
+    for T in (2, 5):
+        for n_ab in (1, 2):
+            for n_ghost in (1, 2, 3):
+                for gap in sorted({1, T - 1}):
+                    for variant in (0, 1, 2):
+                        for late in (2 * T, 2 * T + 1, 3 * T):
+                            out.append((T, td_busy_ops(T, n_ab, n_ghost, gap, variant, late)))
+    return out
+
+
+def gen_td_busy(rng):
+    T = rng.choice([2, 7, 10])
+    return T, td_busy_ops(T, rng.choice([1, 1, 2, 3]), rng.choice([1, 2, 3, 4]), rng.randrange(1, T),
+                          rng.randrange(3), rng.choice([T - 1, T, 2 * T - 1, 2 * T, 2 * T + 1, 3 * T, rng.randrange(4 * T)]))
+
+
 # ----------------------------------------------------------------------------- K: block key
 
 def run_key(aiocoap, world, a, b):
@@ -1107,9 +1557,9 @@ def oracle_key(a, b, r):
 # ----------------------------------------------------------------------------- entry points
 
 def script_nontrivial(obs, script):
-    multi = any(o["seen"] and st["b1"] is not None and st["b1"][0] > 0 for st, o in zip(script["steps"], obs))
-    later = any(o["b2"] is not None and o["b2"][0] > 0 for o in obs)
-    refused = any(o["code"] in (136, 128) and o["exc"] for o in obs)
+    multi = any(o.get("seen") and st.get("b1") is not None and st["b1"][0] > 0 for st, o in zip(script["steps"], obs))
+    later = any(o.get("b2") is not None and o["b2"][0] > 0 for o in obs)
+    refused = any(o.get("code") in (136, 128) and o.get("exc") for o in obs)
     return (multi or later) and refused
 
 
@@ -1139,9 +1589,24 @@ def run(env, rep):
                                 "each component of the block key changed alone; each of 8 exception classes raised "
                                 "on a block-0 request (Block2 0 / none / final Block1 block / no assembly) with an "
                                 "older rendering kept, then later blocks")
-    n = env.scale(1200, 20000)
+    for s in overlap_scripts(T) + busy_scripts(T) + site_scripts(T) + bert_empty_scripts():
+        scripts.append((s, [("fin" if "fin" in st else "boundary") for st in s["steps"]]))
+    rep.exhaustive_parts.append("handlers that suspend: two requests for the beginning under one block key in flight "
+                                "(GET Block2 0 / no Block2 / final Block1 block) x outcome {cut, fits, raises 4.04, raises "
+                                "5.00}^2 x both orders of completion (and the second one not suspending), three in flight "
+                                "x all 6 orders, a second block key (endpoint, query, resource, method) in flight, observable "
+                                "resources, no block-wise assembly, completion after T-1 / T+1 / 2T+1 x later block after "
+                                "1 / T-1 / T+1 / 2T+1 -- a later block asked for after every event; busy server: 1-2 "
+                                "abandoned transfers (spool / cache) x 1-3 completed or superseded transfers every T/2 or "
+                                "T-1 x continuation 2T+2 / 3T after the last use; Site: every pair of paths of each "
+                                "resource object x upload / download / both being rendered; empty BERT blocks with the "
+                                "more flag (block 0, later, repeated)")
+    n = env.scale(1000, 20000)
     for j in range(n):
-        scripts.append(gen_script(env.rng, T, big=(j % 7 == 0)))
+        if j % 16 == 5:
+            scripts.append(gen_busy_script(env.rng, T))
+        else:
+            scripts.append(gen_script(env.rng, T, big=(j % 7 == 0)))
     cases, lines, impl = [], [], []
     deviations = 0
     total = 0
@@ -1152,14 +1617,28 @@ def run(env, rep):
         impl.append(out)
         rep.case(script, nontrivial=script_nontrivial(obs, script), sample_every=400)
         rep.count("R:endpoints=%d" % len(script["eps"]))
+        if script.get("site"):
+            rep.count("R:through-site")
+        overl = 0
         for k, o, st in zip(kinds, obs, script["steps"]):
             rep.count("R:step=" + k)
             total += 1
+            if "fin" in st:
+                overl -= 0 if o.get("none") else 1
+                rep.count("R:handler-ends=" + ("not-pending" if o.get("none") else
+                                                ("raised" if o["exc"] else "rendered")))
+                continue
+            if o.get("pending"):
+                overl += 1
+                rep.count("R:handlers-under-way=%d" % min(overl, 4))
+                continue
             if k.split("_")[-1] in ("skip", "repeat", "first", "size", "size0", "beyond", "resize", "done"):
                 deviations += 1
             cls = {95: "2.31", 136: "4.08", 128: "4.00"}.get(o["code"], "%d.xx" % (o["code"] >> 5)) \
                 if (o["exc"] or o["code"] == 95) else "rendered"
             rep.count("R:response=" + cls)
+            if overl > 0:
+                rep.count("R:answered-while-a-handler-is-under-way=" + cls)
             if o["seen"]:
                 rep.count("R:handler=" + ("assembled" if st["b1"] is not None and st["b1"][0] > 0 else "single"))
                 if h_exc(st["h"]):
@@ -1173,10 +1652,12 @@ def run(env, rep):
                 plen = len(mk_bytes(st["payload"]))
                 bsz = block_size(st["b1"][2])
                 if st["b1"][1]:
-                    bad = not (plen == bsz or (st["b1"][2] == 7 and plen % 1024 == 0))
+                    bad = not (plen == bsz or (st["b1"][2] == 7 and plen % 1024 == 0 and plen > 0))
                 else:
                     bad = st["b1"][2] != 7 and plen > bsz
                 rep.count("R:block0=" + ("more" if st["b1"][1] else "final") + ("+wrong-size" if bad else ""))
+            if st["b1"] is not None and st["b1"][1] and st["b1"][2] == 7 and not mk_bytes(st["payload"]):
+                rep.count("R:empty-bert-block-with-more")
             if st["b1"] is not None and st["b2"] is not None:
                 rep.count("R:block1-with-block2=" + ("final" if not st["b1"][1] else
                                                      ("first" if st["b1"][0] == 0 else "middle"))
@@ -1197,7 +1678,7 @@ def run(env, rep):
     for o in outs:
         for tok in o.split(" "):
             f = tok.split("|")
-            if len(f) != 7:
+            if len(f) != 7 or f[0] == "~":
                 continue
             if f[6] != "-":
                 rep.count("model:observable-entry=" + f[6])
@@ -1216,7 +1697,7 @@ def run(env, rep):
 
     # ---- D: the same scripts against bare Block1Spool / Block2Cache objects
     dcases, dlines, dimpl = [], [], []
-    for script, kinds in scripts[::2]:
+    for script, kinds in scripts[::3]:
         line, out, obs = run_script(aiocoap, script, direct=True)
         case = dict(script, kind="D")
         dcases.append(case)
@@ -1224,17 +1705,17 @@ def run(env, rep):
         dimpl.append(out)
         rep.case(case, nontrivial=script_nontrivial(obs, script), sample_every=2000)
         for o in obs:
-            if o["exc"]:
+            if o.get("exc"):
                 rep.count("D:exception=" + o["exc"])
-        v, idx = oracle_script(script, obs)
+        v, idx = oracle_script(case, obs)
         if v:
             rep.oracle_fail(case, v, key="D:" + v.split(": ", 1)[1][:60])
     compare(env, rep, dcases, dlines, dimpl, what="Block1Spool/Block2Cache")
     # ---- T: TimeoutDict
     tcases = [(c["T"], c["ops"]) for _, c in load_corpus("C06") if c.get("kind") == "T"]
-    tcases += td_boundary()
-    for _ in range(env.scale(6000, 100000)):
-        tcases.append(gen_td(env.rng))
+    tcases += td_boundary() + td_busy()
+    for j in range(env.scale(6000, 100000)):
+        tcases.append(gen_td_busy(env.rng) if j % 10 == 3 else gen_td(env.rng))
     lines, impl, cases = [], [], []
     for (Tt, ops) in tcases:
         r = run_td(aiocoap, Tt, ops)
@@ -1262,7 +1743,7 @@ def run(env, rep):
             toks = []
             for m in ms:
                 rid = ids.setdefault(m.remote.blockwise_key, len(ids))
-                toks.append(f"{rid},{int(m.code)},{U.opts_str(U.opts_of(m))}")
+                toks.append(f"{rid},{int(m.code)},{U.opts_str(U.opts_of(m))},-")
             case = {"kind": "K", "a": list(a), "b": list(b)}
             cases.append(case)
             lines.append("C06 K " + " ".join(toks))
